@@ -55,7 +55,9 @@ def run(ctx):
                 ops = []
                 for _ in range(6 if quick else 14):
                     x = rng.random()
-                    if x < 0.6:
+                    if x < 0.2:
+                        ops.append(("learn", rng.randint(1, NA), rng.randint(1, 5)))
+                    elif x < 0.6:
                         ops.append(("mutate", rng.randint(1, NA)))
                     elif x < 0.8:
                         ops.append(("mutpop",))
@@ -65,7 +67,8 @@ def run(ctx):
                         ops.append(("copy", a, c))
                 jobs.append((algo, NA, ops, exact, ctx.seed + j, True))
                 j += 1
-        jobs.append((algo, 2, [("mutate", 1), ("mutate", 2), ("mutate", 1), ("mutpop",)], True, ctx.seed + j, False))
+        jobs.append((algo, 2, [("learn", 1, 1), ("mutate", 1), ("mutate", 2), ("learn", 1, 2), ("mutate", 1), ("mutate", 1), ("mutate", 1), ("mutpop",),
+                               ("mutate", 1), ("mutate", 1), ("mutate", 2)], True, ctx.seed + j, False))
         j += 1
         if algo in ("DDPG", "TD3", "MADDPG", "MATD3"):
             # equal initial values of lr_actor and lr_critic (a legitimate configuration)
